@@ -92,7 +92,8 @@ def strat_assign():
 
     @st.composite
     def case(draw):
-        regs = draw(st.lists(region_strategy(), min_size=1, max_size=4))
+        crowded = draw(st.integers(0, 39)) == 0         # a full page: a dozen regions, dozens of lines
+        regs = draw(st.lists(region_strategy(), min_size=1, max_size=4)) if not crowded else draw(st.lists(region_strategy(), min_size=8, max_size=14))
         if len(regs) >= 2 and draw(st.integers(0, 3)) == 0:
             # nested: shrink a copy of region 0 around its centroid
             p0 = regs[0]["poly"]
@@ -100,7 +101,7 @@ def strat_assign():
             cy = sum(p[1] for p in p0) / len(p0)
             regs[1] = dict(kind="nested", poly=[(cx + (x - cx) * 0.5, cy + (y - cy) * 0.5) for x, y in p0], valid=regs[0]["valid"], integer=False)
         lines = []
-        for _ in range(draw(st.integers(0, 8))):
+        for _ in range(draw(st.integers(0, 8)) if not crowded else draw(st.integers(20, 35))):
             mode = draw(st.sampled_from(["inside", "inside", "cross", "span", "far", "random", "arch"]))
             r = regs[draw(st.integers(0, len(regs) - 1))]
             ys = [p[1] for p in r["poly"]]
@@ -382,7 +383,7 @@ def body_extractor(ctx, case):
     desc = lambda: "case=%r" % (case,)
     img = np.zeros((8, 8, 3), dtype=np.uint8)
     # given regions carry ids of the library's own scheme (r000, r000_1, r001_3: what an earlier detection pass writes)
-    scheme = ["r000", "r000_1", "r001_3", "r001"]
+    scheme = ["r000", "r000_1", "r001_3", "r001"] + ["r%03d%s" % (2 + k // 3, ("", "_1", "_3")[k % 3]) for k in range(30)]
     given = [RegionLayout(scheme[i] if case.get("lib_ids") else "g%d" % i, np.asarray(r["poly"], dtype=np.float64))
              for i, r in enumerate(base["regions"])]
     if case["simple"]:
